@@ -296,7 +296,7 @@ theorem inv_replicate_zero (n off : Nat) : Inv (Array.replicate n 0) off :=
 
 /-- a fresh all-zero table of positive capacity is well formed for every non-zero `bits`
     (`bits = W`: dense; `bits > W`: plain with placeholder `bits`; `0 < bits < W`: bitmap) -/
-theorem WF_replicate (c : Cfg) {cap bits : Nat} (hc : 0 < cap) (hb : bits ≠ 0) :
+theorem WF_replicate (c : Cfg) {cap bits : Nat} (hc : 0 < cap) (hb : bits ≠ 0) (hlt : bits < 2 ^ c.W) :
     WF c (.heap 0 cap bits (Array.replicate cap 0)) := by
   have hsize : (Array.replicate cap 0 : Tbl).size = cap := Array.size_replicate
   have hel : ∀ sz cap' bits', elems c (.heap sz cap' bits' (Array.replicate cap 0)) = [] :=
@@ -313,7 +313,7 @@ theorem WF_replicate (c : Cfg) {cap bits : Nat} (hc : 0 < cap) (hb : bits ≠ 0)
       simp only [WF, hnd, hpl, if_true, Bool.false_eq_true, if_false]
       refine ⟨⟨by rw [hsize]; exact hc, inv_replicate_zero _ _,
         ⟨0, by rw [hsize]; exact hc, Lin_zero (fun i _ => get_replicate_zero _ i)⟩,
-        by rw [nz_replicate_zero]; rfl, hb⟩, hsize.symm, hp, hwords⟩
+        by rw [nz_replicate_zero]; rfl, hb⟩, hsize.symm, hp, hwords, hlt⟩
     · have hpl : isPlain c bits = false := by simp [isPlain, hp, hb]
       simp only [WF, hnd, hpl, Bool.false_eq_true, if_false]
       refine ⟨hsize.symm, hc, by omega, by omega, inv_replicate_zero _ _,
@@ -322,22 +322,43 @@ theorem WF_replicate (c : Cfg) {cap bits : Nat} (hc : 0 < cap) (hb : bits ≠ 0)
       · intro x hx; rw [hel] at hx; cases hx
       · intro x hx; rw [hel] at hx; cases hx
 
-/-- what `withCapBits` returns is well formed and empty, for every `cap` and `bits` -/
-theorem withCapBits_ok (_ok : CfgOK c) {D : Type} (g : Rng D) (cap bits : Nat) (d d' : D) (r : Rp)
+theorem two_mul_succ_lt_two_pow : ∀ n, 4 ≤ n → 2 * n + 1 < 2 ^ n
+  | 0, h | 1, h | 2, h | 3, h => by omega
+  | 4, _ => by decide
+  | n + 5, _ => by
+    have := two_mul_succ_lt_two_pow (n + 4) (by omega)
+    rw [Nat.pow_succ]; omega
+
+/-- the placeholder drawn by `withCapBits _ 0` is a `W`-bit value above `W` -/
+theorem placeholder_lt (ok : CfgOK c) {b : Nat} (hb : b < 2 ^ c.W) :
+    (if b ≤ c.W then b + c.W + 1 else b) < 2 ^ c.W := by
+  have := two_mul_succ_lt_two_pow c.W ok.W_pos
+  split <;> omega
+
+theorem drawM_lt {D : Type} (g : Rng D) (cap bits : Nat) (d d' : D) (v : Nat)
+    (h : drawM c g cap bits d = .ok (v, d')) : v < 2 ^ c.W := by
+  unfold drawM at h
+  cases h
+  exact Nat.mod_lt _ (Nat.two_pow_pos _)
+
+/-- what `withCapBits` returns is well formed and empty, for every `cap` and every `W`-bit `bits`
+    (`bits = 0`: the placeholder is drawn, and is a `W`-bit value because `4 ≤ W`) -/
+theorem withCapBits_ok (ok : CfgOK c) {D : Type} (g : Rng D) (cap bits : Nat) (hbits : bits < 2 ^ c.W) (d d' : D) (r : Rp)
     (h : withCapBits c g cap bits d = .ok (r, d')) : WF c r ∧ elems c r = [] := by
   unfold withCapBits at h
   by_cases hc : cap > 0
   · rw [if_pos hc] at h
     by_cases hb : bits = 0
     · rw [if_pos hb] at h
-      obtain ⟨v, d1, _, h2⟩ := bind_ok h
+      obtain ⟨v, d1, h1, h2⟩ := bind_ok h
       rw [pure_run] at h2
       cases h2
-      refine ⟨WF_replicate c hc ?_, elems_zero c (fun w hw => replicate_zero_mem hw)⟩
+      refine ⟨WF_replicate c hc ?_ (placeholder_lt ok (drawM_lt g _ _ _ _ _ h1)),
+        elems_zero c (fun w hw => replicate_zero_mem hw)⟩
       split <;> omega
     · rw [if_neg hb, pure_run] at h
       cases h
-      exact ⟨WF_replicate c hc hb, elems_zero c (fun w hw => replicate_zero_mem hw)⟩
+      exact ⟨WF_replicate c hc hb hbits, elems_zero c (fun w hw => replicate_zero_mem hw)⟩
   · rw [if_neg hc, pure_run] at h
     cases h
     exact ⟨trivial, rfl⟩
@@ -451,7 +472,7 @@ theorem insertDense_ok (ok : CfgOK c) {D : Type} (g : Rng D) (rec : Ins D) (hrec
     · -- (ii) fall back to a sparse table
       rw [if_pos hsp] at h
       obtain ⟨new, d1, h1, h2⟩ := bind_ok h
-      obtain ⟨hnew, hempty⟩ := withCapBits_ok ok g _ _ _ _ _ h1
+      obtain ⟨hnew, hempty⟩ := withCapBits_ok ok g _ _ (ok.cab_lt e) _ _ _ h1
       obtain ⟨s1, s2, s3⟩ := rebuild_ok hrec hnew hempty hrange he h2
       exact ⟨s1, by simp [s2, hnot], s3⟩
     · -- (iii) grow the bitset
